@@ -265,11 +265,16 @@ def check_c32(tier, seed, work):
     two = dict(vals=q(["v1", "v2"]), keys=q(["K1", "K2"]), mkeys="")
     states = trans = 0
     results = []
-    for name, enabled, cfgs in (("ST", "EnabledST", ucfgs), ("SOC", "EnabledSOC", ccfgs)):
+    # SOCT: the state-only leaf c/s of the even plain-shape variants, whose config false statement
+    # sits on a choice around the leaf
+    evenT = "t2,t4,t6,t8,t10"
+    for name, enabled, cfgs, variants in (("ST", "EnabledST", ucfgs, None), ("SOC", "EnabledSOC", ccfgs, None), ("SOCT", "EnabledSOC", ucfgs, evenT)):
         mc = vf.run_tlc(work, "MC_TreeLaws", LAWS_CFG % dict(two, enabled=enabled) + "INVARIANT ConfigFalseLaws\nCONSTRAINT EmitTree\n", tag="pcf" + name)
         states += mc["distinct"]
         trans += mc["states"]
         args = ["-in", mc["out"], "-modes", "c32", "-seed", str(seed), "-prop", "C32", "-pkgs", ",".join(cfgs)]
+        if variants:
+            args += ["-variants", variants]
         if tier == "quick":
             args += ["-limit", "3"]
         r = run_replay(bindir, h, "trees", args, work, name)
@@ -284,7 +289,8 @@ def check_c32(tier, seed, work):
                explanation="every well-formed tree of slice ST (config leaves, leaf-list, keyed list and the config false container st with its "
                "leaf; the harness adds two elements of the unkeyed state list st/ul) on the uncompressed packages, and of slice SOC (config "
                "leaves mirrored in state, nested list containers, the state-only leaf c/s) on the compressed packages including "
-               "prefer_operational_state, where every field is read from a config false path yet must be kept")
+               "prefer_operational_state, where every field is read from a config false path yet must be kept; slice SOC again on the "
+               "uncompressed packages for the even plain-shape variants, where c/s inherits config false from a choice")
     return cov, tot["violations"]
 
 
